@@ -893,7 +893,7 @@ def gen_plateau_locus(src, with_annotation=True, chrom="chr1"):
             "hidden_genes": [] if with_annotation else genes}
 
 
-def gen_long_gene_locus(src, with_annotation=True, chrom="chr1", straddle=False):
+def gen_long_gene_locus(src, with_annotation=True, chrom="chr1", straddle=False, x_annotated=True, n_cross=1):
     """A sparsely covered gene longer than two splitting windows: 3-5 exons separated by introns of 130-170 bins
     (33-43 kb), 1-3 full-length reads that are therefore processed in >= 3 regions and assigned to the same isoform in
     each of them, short reads on single exons, optionally a pile-up on the first exon (so that depth 2-3 is still a
@@ -916,6 +916,7 @@ def gen_long_gene_locus(src, with_annotation=True, chrom="chr1", straddle=False)
     overrides = build.splice_overrides(chrom, chain, strand)
     reads = []
     k = 0
+    hidden_x = []
     pile = True if straddle else src.bool(0.5)
     n_long = 1 if straddle else (src.int(1, 3) if pile else 1)
     for _ in range(n_long):
@@ -952,17 +953,25 @@ def gen_long_gene_locus(src, with_annotation=True, chrom="chr1", straddle=False)
             a = cx[-1][1] + src.int(150, 400)
             cx.append([a + 1, a + src.int(120, 300)])
         stx = src.choice(["+", "-"])
-        genes.append({"id": "X0", "chr": chrom, "strand": stx, "canon": "canon",
-                      "transcripts": [{"id": "XT0", "exons": cx}]})
+        xg = {"id": "X0", "chr": chrom, "strand": stx, "canon": "canon", "transcripts": [{"id": "XT0", "exons": cx}]}
+        if x_annotated:
+            genes.append(xg)
+        else:
+            hidden_x = [xg]
         overrides += build.splice_overrides(chrom, cx, stx)
-        k += 1
-        reads.append(R.make_read("x%d" % k, chrom, [list(b) for b in cx], flag=16 if stx == "-" else 0, mapq=60))
+        for _ in range(n_cross):
+            k += 1
+            blocks = [list(b) for b in cx]
+            blocks[0][0] += src.int(0, 10)
+            reads.append(R.make_read("x%d" % k, chrom, blocks, flag=16 if stx == "-" else 0, mapq=60,
+                                     polya=25 if stx == "+" else 0, polyt=25 if stx == "-" else 0))
         for _ in range(src.int(2, 3)):
             k += 1
             blocks = [list(b) for b in cx]
             blocks[0][0] = b0 + BIN + src.int(5, 60)
             special.append("x%d" % k)
-            reads.append(R.make_read("x%d" % k, chrom, blocks, flag=16 if stx == "-" else 0, mapq=60))
+            reads.append(R.make_read("x%d" % k, chrom, blocks, flag=16 if stx == "-" else 0, mapq=60,
+                                     polya=25 if stx == "+" else 0, polyt=25 if stx == "-" else 0))
     end = chain[-1][1]
     if src.bool(0.6):
         g0 = end + src.int(300, 2000)
@@ -979,7 +988,7 @@ def gen_long_gene_locus(src, with_annotation=True, chrom="chr1", straddle=False)
     return {"chroms": [[chrom, length, src.int(1, 10 ** 6)]], "genes": genes if with_annotation else [],
             "overrides": overrides, "reads": reads, "nfiles": 1,
             "gtf": {"gene_records": True, "transcript_records": True}, "special": special,
-            "hidden_genes": [] if with_annotation else genes}
+            "hidden_genes": hidden_x if with_annotation else genes + hidden_x}
 
 
 def add_mirror_strand_clone(src, sc, g, reads_per_chain=(3, 5), name_prefix="m"):
